@@ -442,7 +442,33 @@ pub fn to_xml(t: &XTree) -> String {
     out
 }
 
+/// Model of an in-place edit for [`to_xml_edited`]: the children of every
+/// selected element are replaced by the raw fragment text, the value of every
+/// selected attribute by `attr_value`; a selected root node makes the whole
+/// output the fragment.
+pub struct Edit<'a> {
+    pub selected: &'a [usize],
+    pub fragment: &'a str,
+    pub attr_value: &'a str,
+}
+
+/// Serialises the tree with the edit applied (see [`Edit`]).
+pub fn to_xml_edited(t: &XTree, ed: &Edit) -> String {
+    if ed.selected.contains(&0) {
+        return ed.fragment.to_string();
+    }
+    let mut out = String::new();
+    for &c in &t.nodes[0].children {
+        write_node_ed(t, c, &mut out, Some(ed));
+    }
+    out
+}
+
 fn write_node(t: &XTree, i: usize, out: &mut String) {
+    write_node_ed(t, i, out, None)
+}
+
+fn write_node_ed(t: &XTree, i: usize, out: &mut String, ed: Option<&Edit>) {
     let n = &t.nodes[i];
     match n.kind {
         Kind::Element => {
@@ -483,15 +509,24 @@ fn write_node(t: &XTree, i: usize, out: &mut String) {
                 out.push(' ');
                 out.push_str(&t.name(a));
                 out.push_str("=\"");
-                esc_attr(&t.nodes[a].value, out);
+                match ed {
+                    Some(e) if e.selected.contains(&a) => esc_attr(e.attr_value, out),
+                    _ => esc_attr(&t.nodes[a].value, out),
+                }
                 out.push('"');
             }
-            if n.children.is_empty() {
+            if let Some(e) = ed.filter(|e| e.selected.contains(&i)) {
+                out.push('>');
+                out.push_str(e.fragment);
+                out.push_str("</");
+                out.push_str(&qn);
+                out.push('>');
+            } else if n.children.is_empty() {
                 out.push_str("/>");
             } else {
                 out.push('>');
                 for &c in &n.children {
-                    write_node(t, c, out);
+                    write_node_ed(t, c, out, ed);
                 }
                 out.push_str("</");
                 out.push_str(&qn);
